@@ -60,21 +60,10 @@ class Stack(Sequence[T]):
 
     def clear(self) -> None:
         """Remove all items from the stack, preserving snapshot state for restore()."""
-        if not self.items:
-            return
-
-        removed = self.items[:]
-        self.items.clear()
-
-        if self.lengths:
-            item_count, _ = self.lengths[-1]
-            # Mark all items as popped for the latest snapshot
-            self.lengths[-1] = (item_count, 0)
-            self.popped.extend(reversed(removed))
-        else:
-            # No snapshots to restore from; reset everything
-            self.popped.clear()
-            self.lengths.clear()
+        # Pop one at a time so only items below the latest snapshot's low-water
+        # mark are recorded for restore().
+        while self.items:
+            self.pop()
 
     @overload
     def __getitem__(self, index: int) -> T: ...
